@@ -45,7 +45,30 @@ func SetUnknown(rv reflect.Value, b []byte) {
 	if !fv.IsValid() {
 		return
 	}
-	reflect.NewAt(fv.Type(), unsafe.Pointer(fv.UnsafeAddr())).Elem().SetBytes(b)
+	reflect.NewAt(fv.Type(), unsafe.Pointer(fv.UnsafeAddr())).Elem().SetBytes(withSpare(b))
+}
+
+// SpareFill is what the spare capacity of realised byte slices holds (e.g. a holder that is a window into a
+// received packet): nothing may write there, and CanonValue covers it.
+const SpareFill = 0xEE
+
+// withSpare copies b into a slice that, for some lengths, has spare capacity filled with SpareFill.
+func withSpare(b []byte) []byte {
+	pad := 0
+	switch len(b) % 4 {
+	case 1:
+		pad = 1
+	case 2:
+		pad = 5
+	case 3:
+		pad = 16
+	}
+	out := make([]byte, len(b)+pad)
+	copy(out, b)
+	for i := len(b); i < len(out); i++ {
+		out[i] = SpareFill
+	}
+	return out[:len(b)]
 }
 
 func setValue(c *Corpus, t *T, w *W, dst reflect.Value) {
@@ -60,7 +83,7 @@ func setValue(c *Corpus, t *T, w *W, dst reflect.Value) {
 	case String:
 		dst.SetString(string(w.B))
 	case Binary:
-		dst.SetBytes(append([]byte{}, w.B...))
+		dst.SetBytes(withSpare(w.B))
 	case Struct:
 		sd := c.Get(t.S)
 		if t.Ptr {
@@ -163,6 +186,11 @@ func canon(b *bytes.Buffer, v reflect.Value, depth int) {
 		}
 		if v.Type().Elem().Kind() == reflect.Uint8 {
 			writeBytes(b, 'x', v.Bytes())
+			if c := v.Cap(); c > v.Len() && c-v.Len() <= 64 {
+				// the spare capacity is reachable from the value too (by re-slicing)
+				spare := unsafe.Slice((*byte)(unsafe.Pointer(v.Pointer())), c)[v.Len():c]
+				writeBytes(b, '+', spare)
+			}
 			return
 		}
 		b.WriteByte('[')
